@@ -81,7 +81,12 @@ def run(ck):
                         except AbsRaise as e:
                             from ..repo import unparse
                             site = unparse(e.node, 70) if e.node is not None else '?'
-                            ck.violate('C06.collect', f'collect_results_{how}:raises-{e.exc.tname}:{site}',
+                            # findings are identified by the failing input (table class) and the kind of failure, not by the text of the
+                            # statement that raises: a refactoring of collect_results_list must not turn the same defect into a new one
+                            msg = ' '.join(str(a) for a in e.exc.args)
+                            kind = ('scatter-of-an-empty-axis-array' if 'cannot assign 0 input values' in msg else
+                                    'scatter-into-an-empty-axis-array' if 'size of axis is 0' in msg else site)
+                            ck.violate('C06.collect', f'collect_results_{how}:raises-{e.exc.tname}:{kind}:table={tname}',
                                        f'{label}: raises {e.exc.tname}{e.exc.args} at `{site}`')
                             continue
                         check_collected(ck, label, how, res, table, contexts, expected, tname)
